@@ -87,10 +87,11 @@ inductive Form
   | revIt                -- std::reverse_iterator<std::vector<U>::iterator>: random access, NOT contiguous
   | deqIt                -- std::deque<U>::iterator: random access, NOT contiguous
   | inIt                 -- a single-pass input iterator whose copies share their position (like std::istream_iterator)
+  | strideIt             -- a user-defined random access iterator (lvalue references, pointer operator->) that visits every other object
   deriving DecidableEq, Repr, Inhabited
 
 def Form.isRange : Form → Bool
-  | .ptr | .vecIt | .listIt | .moveIt | .revIt | .deqIt | .inIt => false
+  | .ptr | .vecIt | .listIt | .moveIt | .revIt | .deqIt | .inIt | .strideIt => false
   | _ => true
 /-- `HAS_DATA_AND_SIZE<std::decay_t<Range>>`: a C array decays to a pointer, which has no `std::data` -/
 def Form.hasDataAndSize : Form → Bool
